@@ -254,8 +254,8 @@ def run_go(cases):
         err = 'HANG ' + (bytes.fromhex(hx_) if hx_ != '-' else b'').decode('utf-8', 'replace')
         lines = [l for l in lines if not l.startswith('HANG ')]
     res = []
-    for i in range(0, len(lines) - 5, 6):
-        T, A, V, S, R, H = lines[i:i + 6]
+    for i in range(0, len(lines) - 6, 7):
+        T, A, V, S, R, H, PP = lines[i:i + 7]
         d = {}
         f = T.split()[1:]
         d['tokens'] = None if f == ['PANIC'] else [(int(f[j]), bytes.fromhex(f[j + 1]) if f[j + 1] != '-' else b'') for j in range(0, len(f), 2)]
@@ -264,6 +264,7 @@ def run_go(cases):
         d['search'] = ''.join(S.split()[1:])
         d['again'] = d['verdicts'] if R.split()[1:] == ['same'] else ''.join(R.split()[1:])
         d['history'] = ' '.join(H.split()[1:])
+        d['concurrent'] = ' '.join(PP.split()[1:])
         res.append(d)
     return res, rc, err
 
